@@ -1,0 +1,104 @@
+//go:build verif
+
+package verifapi
+
+import (
+	"github.com/deepteams/webp/internal/dsp"
+	"github.com/deepteams/webp/internal/lossy"
+)
+
+// DSP kernels and their dispatch (property C13, kernel half of C04), re-exported
+// for the external verification harness (suite "kernels").
+
+const DspBPS = dsp.BPS
+
+type (
+	DspKernel       = dsp.VerifKernel
+	DspITransform   = dsp.VerifITransformFunc
+	DspFTransform   = dsp.VerifFTransformFunc
+	DspWHT          = dsp.VerifWHTFunc
+	DspDec2         = dsp.VerifDec2Func
+	DspDec1         = dsp.VerifDec1Func
+	DspPred         = dsp.VerifPredFunc
+	DspPredMode     = dsp.VerifPredModeFunc
+	DspMetric       = dsp.VerifMetricFunc
+	DspGreen        = dsp.VerifGreenFunc
+	DspSFilter      = dsp.VerifSFilterFunc
+	DspUpsample     = dsp.VerifUpsampleFunc
+	DspSegmentQuant = lossy.SegmentQuant
+)
+
+// dispatch control
+func DspArch() (string, bool)       { return dsp.VerifArch() }
+func DspCPUHasAVX2() bool           { return dsp.VerifCPUHasAVX2() }
+func DspSetConfig(cfg string) error { return dsp.VerifSetConfig(cfg) }
+func DspConfig() string             { return dsp.VerifConfig() }
+func DspSlots() map[string]string   { return dsp.VerifSlots() }
+func DspSelfCheck() []string        { return dsp.VerifSelfCheck() }
+func DspKernels() []DspKernel       { return dsp.VerifKernels() }
+func DspHasAVX2Now() bool           { return dsp.HasAVX2() }
+
+// quantisation (package lossy: assembly on amd64, follows dsp.HasAVX2)
+func DspQuantizeCoeffs(in, out []int16, sq *DspSegmentQuant, first int) int {
+	return lossy.QuantizeCoeffs(in, out, sq, first)
+}
+func DspQuantizeCoeffsGo(in, out []int16, sq *DspSegmentQuant, first int) int {
+	return lossy.VerifQuantizeCoeffsGo(in, out, sq, first)
+}
+func DspDequantCoeffs(in, out []int16, sq *DspSegmentQuant) { lossy.DequantCoeffs(in, out, sq) }
+func DspDequantCoeffsGo(in, out []int16, sq *DspSegmentQuant) {
+	lossy.VerifDequantCoeffsGo(in, out, sq)
+}
+func DspInitSegmentQuant(dc, ac, biasType int, sharpen bool) DspSegmentQuant {
+	return lossy.VerifInitSegmentQuant(dc, ac, biasType, sharpen)
+}
+
+// decoder transform dispatch
+func DspDoTransform(bits uint32, src []int16, dst []byte)   { lossy.VerifDoTransform(bits, src, dst) }
+func DspDoUVTransform(bits uint32, src []int16, dst []byte) { lossy.VerifDoUVTransform(bits, src, dst) }
+func DspNzCodeBits(nzCoeffs uint32, nz, dcNz int) uint32 {
+	return lossy.VerifNzCodeBits(nzCoeffs, nz, dcNz)
+}
+
+// single-path (pure Go everywhere) kernels, for the Go-vs-model correspondence
+func DspSimpleHFilter16(p []byte, base, stride, thresh int) {
+	dsp.SimpleHFilter16(p, base, stride, thresh)
+}
+func DspVFilter16(p []byte, base, stride, t, it, hev int) { dsp.VFilter16(p, base, stride, t, it, hev) }
+func DspHFilter16(p []byte, base, stride, t, it, hev int) { dsp.HFilter16(p, base, stride, t, it, hev) }
+func DspVFilter16i(p []byte, base, stride, t, it, hev int) {
+	dsp.VFilter16i(p, base, stride, t, it, hev)
+}
+func DspHFilter16i(p []byte, base, stride, t, it, hev int) {
+	dsp.HFilter16i(p, base, stride, t, it, hev)
+}
+func DspVFilter8(u, v []byte, ub, vb, stride, t, it, hev int) {
+	dsp.VFilter8(u, v, ub, vb, stride, t, it, hev)
+}
+func DspHFilter8(u, v []byte, ub, vb, stride, t, it, hev int) {
+	dsp.HFilter8(u, v, ub, vb, stride, t, it, hev)
+}
+func DspVFilter8i(u, v []byte, ub, vb, stride, t, it, hev int) {
+	dsp.VFilter8i(u, v, ub, vb, stride, t, it, hev)
+}
+func DspHFilter8i(u, v []byte, ub, vb, stride, t, it, hev int) {
+	dsp.HFilter8i(u, v, ub, vb, stride, t, it, hev)
+}
+func DspNeedsFilter(p1, p0, q0, q1, thresh int) bool {
+	return dsp.VerifNeedsFilter(p1, p0, q0, q1, thresh)
+}
+func DspNeedsFilter2(p3, p2, p1, p0, q0, q1, q2, q3, thresh, ithresh int) bool {
+	return dsp.VerifNeedsFilter2(p3, p2, p1, p0, q0, q1, q2, q3, thresh, ithresh)
+}
+func DspHev(p1, p0, q0, q1, t int) bool { return dsp.VerifHev(p1, p0, q0, q1, t) }
+func DspClipTables() (s1 []int8, s2 []int8, c1 []uint8, a0 []uint8, offs [4]int) {
+	return dsp.VerifClipTables()
+}
+func DspYUVClipTable() []uint8                    { return dsp.VerifYUVClipTable() }
+func DspClip8b(v int) uint8                       { return dsp.Clip8b(v) }
+func DspYUVToRGB(y, u, v int, rgb []byte)         { dsp.YUVToRGB(y, u, v, rgb) }
+func DspTTransform(in []byte) int                 { return dsp.VerifTTransform(in) }
+func DspSSE(a, b []byte, w, h, sa, sb int) uint64 { return dsp.SSE(a, b, w, h, sa, sb) }
+func DspUpsampleLinePair(topY, botY, topU, topV, botU, botV, topDst, botDst []byte, width int) {
+	dsp.UpsampleLinePair(topY, botY, topU, topV, botU, botV, topDst, botDst, width)
+}
